@@ -430,8 +430,9 @@ func runC02Emphasis(r *core.Run) {
 		{"emphasis-runs", []string{"*", "_", "a", " ", "."}, 9, 11},
 		{"inline-runs", []string{"*", "_", "[", "]", "(u)", "!", "`", "a", " ", "\\"}, 6, 7},
 		{"bracket-runs", []string{"*", "[", "]", "(u)", "![", "`", "a"}, 7, 9},
+		{"multi-line-runs", []string{"\n", "`", "``", "*", "[", "](u)", "a", "_", " "}, 6, 8},
 	} {
-		wordsSub(r, a.name, fmt.Sprintf("as the content of an ATX heading and, where the line is a paragraph, alone: output must equal <h1>/<p> around the HTML an independent definitional implementation of CommonMark 6.1-6.4 (code spans, backslash escapes, emphasis, inline links, images) prescribes (validated on %d official examples); words with a leading or trailing blank are skipped; distinct = output digest", validated),
+		wordsSub(r, a.name, fmt.Sprintf("as the content of an ATX heading and, where the line is a paragraph, alone: output must equal <h1>/<p> around the HTML an independent definitional implementation of CommonMark 6.1-6.4 (code spans, backslash escapes, emphasis, inline links, images) prescribes (validated on %d official examples); words with a leading or trailing blank (or, in multi-line words, a line that is empty, starts or ends with a blank or would not be a paragraph line on its own) are out of scope and skipped; evaluations = words visited; distinct = output digest", validated),
 			a.toks, core.Pick(r, a.nq, a.nt), func(s *core.Sub, w int) func([]byte) uint64 {
 				cv := core.NewConv(cfg)
 				var doc []byte
@@ -440,17 +441,32 @@ func runC02Emphasis(r *core.Run) {
 						return 0
 					}
 					ws := string(word)
+					if strings.Contains(ws, "\n") {
+						// several lines: a paragraph only; every line must be a paragraph line of its own
+						for _, l := range strings.Split(ws, "\n") {
+							if l == "" || l[0] == ' ' || l[len(l)-1] == ' ' || !emphParagraphSafe(l) {
+								return 0
+							}
+						}
+						ref := emphRefHTML(ws)
+						got, ok := mustConvert(s, cv, word)
+						if ok && string(got) != "<p>"+ref+"</p>\n" {
+							s.Violate("differs-from-spec:"+a.name+":paragraph", cfg.String(), word, nil, "inline structure differs from what CommonMark 6.1-6.4 prescribes", "<p>"+ref+"</p>\n", string(got))
+						}
+						if strings.Contains(ref, "<") {
+							return core.Hash(got)
+						}
+						return 0
+					}
 					ref := emphRefHTML(ws)
 					doc = append(append(doc[:0], "# "...), word...)
 					got, ok := mustConvert(s, cv, doc)
-					s.Evals.Add(1)
 					if ok && string(got) != "<h1>"+ref+"</h1>\n" {
 						s.Violate("differs-from-spec:"+a.name+":heading", cfg.String(), doc, nil, "inline structure differs from what CommonMark 6.1-6.4 prescribes", "<h1>"+ref+"</h1>\n", string(got))
 					}
 					h := core.Hash(got)
 					if emphParagraphSafe(ws) {
 						got, ok := mustConvert(s, cv, word)
-						s.Evals.Add(1)
 						if ok && string(got) != "<p>"+ref+"</p>\n" {
 							s.Violate("differs-from-spec:"+a.name+":paragraph", cfg.String(), word, nil, "inline structure differs from what CommonMark 6.1-6.4 prescribes", "<p>"+ref+"</p>\n", string(got))
 						}
